@@ -439,17 +439,19 @@ class FillRequest(object):
         If *yield_on_remainder* is set, the results for an incomplete
         block are yielded as well (and the block continues).
         """
+        # All state is updated before the first result is yielded:
+        # a consumer that does not exhaust this generator
+        # (like Zip, which stops at the shortest of its branches)
+        # must not leave buffered values behind in it.
+        results = []
         if not self._buffer_input:
             # results of the blocks that were completed during fill
-            buffer_out = self._buffer_out
+            results = self._buffer_out
             self._buffer_out = []
-            for val in buffer_out:
-                yield val
 
-        # yield what was filled into the element
+        # what was filled into the element
         if self._n_count == self.bufsize:
-            for val in self._request_block():
-                yield val
+            results.extend(self._request_block())
 
         if self._buffer_input:
             # Buffer is always filled after the element,
@@ -460,12 +462,13 @@ class FillRequest(object):
                 self._el_fill(value)
                 self._n_count += 1
                 if self._n_count == self.bufsize:
-                    for val in self._request_block():
-                        yield val
+                    results.extend(self._request_block())
 
         if self._yield_on_remainder and self._n_count:
-            for val in self._el_request():
-                yield val
+            results.extend(self._el_request())
+
+        for val in results:
+            yield val
 
     def reset(self):
         """Reset *el* (ignoring the initialization setting)."""
